@@ -128,6 +128,12 @@ package home
 // ---- C16: the DNS server is reconfigured with the TLS settings just accepted (server name included) ----
 // tlsConfGen counts the stores of new TLS settings; the reconfiguration of the DNS server reads the stored settings, so
 // the store has to come first - otherwise the server keeps deriving ClientIDs from the previous server name.
+// Settings the frontend does not send (strict server-name checking among them) survive a change of the TLS settings.
+//@ func (c *tlsConfigSettings) setPrivateFieldsAndCompare(conf *tlsConfigSettings) (equal bool)
+//@   property C16
+//@   requires c != conf
+//@   ensures private-settings-kept: conf.StrictSNICheck == old(c.StrictSNICheck) && conf.AllowUnencryptedDoH == old(c.AllowUnencryptedDoH) && conf.PortDNSCrypt == old(c.PortDNSCrypt) && conf.DNSCryptConfigFile == old(c.DNSCryptConfigFile)
+//@   modifies *conf
 //@ ghost var tlsConfGen int
 //@ func (m *tlsManager) setConfig(ctx context.Context, newConf tlsConfigSettings, status *tlsConfigStatus, servePlain aghalg.NullBool) (restartHTTPS bool)
 //@   property C16
